@@ -439,7 +439,9 @@ func (blockID BlockID) Equals(other BlockID) bool {
 }
 
 func (blockID BlockID) Key() string {
-	return string(blockID.Hash) + string(wire.BinaryBytes(blockID.PartsHeader))
+	// The hash is length-prefixed: it has no fixed length, so plain concatenation would let
+	// two different BlockIDs share a key (and a vote tally).
+	return string(wire.BinaryBytes(blockID.Hash)) + string(wire.BinaryBytes(blockID.PartsHeader))
 }
 
 func (blockID BlockID) WriteSignBytes(w io.Writer, n *int, err *error) {
